@@ -80,6 +80,9 @@ def gen(tier, rnd):
         for ka in (0, 1):
             L.append('to2 %d %d %d %d %d' % (H, B, d1, gap, ka))
     L.append('to2 1000 1000 200 2200 %d' % rnd.choice([0, 1]))
+    # several connections on one worker, stalled ones opened before, between and after busy keep-alive ones: every connection is judged on its own
+    for ks in (['S,K', 'K,S', 'K,S,K,P'] if tier == 'quick' else ['S,K', 'K,S', 'K,S,K,P', 'P,K,K,S', 'S,S,K', 'K,K,K,S,P,K', 'K,P,K,S,K,S']):
+        L.append('tom %d %s' % (rnd.choice([800, 1000]), ks))
     return L
 
 BAD = ('ASAN', 'UBSAN', 'HANG', 'CRASH', 'TERMINATE', 'MISSING', 'bad-op', 'connect-failed')
@@ -105,6 +108,11 @@ def oracle(ln, out):
     if any(x in out for x in BAD): return ('crash', 'implementation aborted/hung: ' + out[:120])
     w = ln.split()
     f = dict(kv.split('=', 1) for kv in out.split(' ') if '=' in kv)
+    if w[0] == 'tom':
+        for k, r in zip(w[2].split(','), f.get('conns', '').split(',')):
+            if k == 'K' and r != 'K:ok': return ('timed-out-early', 'a keep-alive connection whose requests were all in time (one every %d ms, time-out %s ms) was not served: %s' % (int(w[1]) // 4, w[1], r))
+            if k in 'SP' and r != k + ':408!': return ('no-408', 'a stalled connection sharing its worker with busy keep-alive connections was not answered 408 and closed within time-out + timer period + 900 ms: %s' % r)
+        return None
     status = int(f.get('status', -1)); handler = int(f.get('handler', -1))
     if w[0] == 'lim':
         lim = int(w[1]); msg = unhx(w[2])
@@ -150,11 +158,12 @@ def classify(ln, out):
     w = ln.split()
     if w[0] == 'lim': return ('lim', w[1], len(w[2]) // 2 - int(w[1]), w[3].count(',') + (w[3] != '-'), canon(out)[:14])
     if w[0] == 'to2': return ('to2',) + tuple(w[1:]) + (canon(out),)
+    if w[0] == 'tom': return ('tom',) + tuple(w[1:]) + (canon(out),)
     return ('to', w[1], w[2], tuple(s.split(':')[0] for s in w[3].split(',')), canon(out))
 
 RULE = ('sizes: well-formed requests (body-less with a padded header, Content-Length, chunked) of exactly limit-2..limit+2 and +17 bytes for limits 64..8192, written to a live endpoint in 1..7 pieces, plus seeded sizes; '
         'time-outs: (header, body) settings 1000/1000, 1000/2500, 2500/1000 (thorough: more), stalls after connect, inside the request line, inside the headers, inside the body, durations 150 ms (in time) and deadline+1200 ms (late), '
-        'a body slower than the header time-out but within the body time-out; two requests on one connection (with and without Connection: keep-alive) whose delays add up to more than the time-out while each is in time, and a late second request. Outcome (status, handler ran, closed) compared with the parser+time-out model; direct oracle on status/handler/closing and on the time of the 408. '
+        'a body slower than the header time-out but within the body time-out; two requests on one connection (with and without Connection: keep-alive) whose delays add up to more than the time-out while each is in time, and a late second request; several connections on one worker (stalled and partial ones opened before, between and after busy keep-alive ones): each is judged on its own. Outcome (status, handler ran, closed) compared with the parser+time-out model; direct oracle on status/handler/closing and on the time of the 408. '
         'non-trivial = distinct (kind, setting, size offset / stall pattern, outcome)')
 ASSUME = ['timer period 500 ms (static constant of endpoint.cc) — cases are kept at least 250 ms away from every deadline, the 408 may take one period plus 1500 ms of scheduling slack',
           'client-side pacing segments the request (no read-call hook); by the segmentation theorems of C01 the outcome does not depend on how TCP coalesces the pieces',
